@@ -64,6 +64,10 @@ type Item struct {
 	Else []Item `json:"else,omitempty"`
 	Def  bool   `json:"def,omitempty"` // cof: Body is its default block
 	Lay  *Lay   `json:"lay,omitempty"`
+	// Held (partial): the data map, layout entry included, is first bound to a variable and the partial is then called
+	// TWICE with that variable: partial(name, held) ~ partial(name, held). Each call is what the call with a fresh
+	// literal map is.
+	Held bool `json:"held,omitempty"`
 }
 
 type Texts struct {
@@ -220,6 +224,15 @@ func (p *realPrinter) doc(items []Item) string {
 			if it.Lay != nil {
 				p.parts[lname] = p.doc(it.Lay.Body)
 			}
+			if it.Held {
+				d := dataLit(it.Data, lname)
+				if d == "" {
+					d = "{}"
+				}
+				hv := fmt.Sprintf("held%d", p.n)
+				sb.WriteString("<% let " + hv + " = " + d + " %><%= partial(\"" + name + "\", " + hv + ") %>~<%= partial(\"" + name + "\", " + hv + ") %>")
+				continue
+			}
 			sb.WriteString("<%= partial(" + callArgs(`"`+name+`"`, dataLit(it.Data, lname)) + ") %>")
 		case "cfor":
 			sb.WriteString(`<% contentFor("` + it.N + `") { %>` + p.doc(it.Body) + "<% } %>")
@@ -293,6 +306,16 @@ func (p *splicePrinter) doc(items []Item, d defs) string {
 				lname = "layout" + it.Lay.Ext // only the presence of the key matters to the oracle
 			}
 			sb.WriteString("<%= xsplice(" + callArgs(strconv.Itoa(id), dataLit(it.Data, lname)) + ") %>")
+			if it.Held {
+				// the second call: the same composition once more, with the same (fresh) data
+				sp2 := &spec{kind: "partial", ext: it.Ext}
+				id2 := p.add(sp2)
+				sp2.text = p.doc(it.Body, d)
+				if it.Lay != nil {
+					sp2.lay = &spec{kind: "layout", ext: it.Lay.Ext, text: p.doc(it.Lay.Body, d)}
+				}
+				sb.WriteString("~<%= xsplice(" + callArgs(strconv.Itoa(id2), dataLit(it.Data, lname)) + ") %>")
+			}
 		case "cfor":
 			d = d.with(it.N, &items[i])
 		case "cof":
@@ -344,6 +367,9 @@ func (p *textPrinter) doc(items []Item, d defs, yield string) string {
 				body = p.doc(it.Lay.Body, d, body)
 			}
 			sb.WriteString(body)
+			if it.Held {
+				sb.WriteString("~" + body)
+			}
 		case "cfor":
 			d = d.with(it.N, &items[i])
 		case "cof":
@@ -1038,6 +1064,7 @@ func (g *G) partial(sc *scope) []Item {
 		}
 		it.Lay = &Lay{Ext: g.pick(exts, "le"), Body: lb}
 	}
+	it.Held = g.intn(4, "held") == 0
 	out := []Item{it}
 	// sensor: a name the partial may have rebound is emitted by the caller afterwards
 	if g.intn(2, "ps") == 0 {
@@ -1143,7 +1170,11 @@ func fixedLayout(mode int, ext string) *Lay {
 }
 
 func configCase(ct, ext string, lmode int, lext string, body, data int) Case {
-	p := Item{K: "partial", Ext: ext, Data: fixedData(data), Body: fixedBodies[body].items, Lay: fixedLayout(lmode, lext)}
+	return configCaseHeld(ct, ext, lmode, lext, body, data, false)
+}
+
+func configCaseHeld(ct, ext string, lmode int, lext string, body, data int, held bool) Case {
+	p := Item{K: "partial", Ext: ext, Data: fixedData(data), Body: fixedBodies[body].items, Lay: fixedLayout(lmode, lext), Held: held}
 	main := []Item{tx("A'"), {K: "tick"}, p, tx("B"), em("g0"), em("g2"), {K: "tick"}}
 	if data >= 2 {
 		p.Body = append(append([]Item{}, p.Body...), tx("|"), em("f0"))
@@ -1216,7 +1247,7 @@ func contentCase(ops []int, placement int) Case {
 
 // ---- the test --------------------------------------------------------------------
 
-const rule = "A case is a tree of documents: main template, partial bodies (nesting <= 3), layouts (a layout may wrap its yield in a partial that has a layout), contentFor blocks, contentOf default blocks, blocks of a recording Go block helper. Items: literal text (HTML/JS specials), <%= %> of context strings with HTML/JS specials, of loop variables, of data keys, a tick() counter (detects double evaluation), for loops, if/else, let (partials: must not leak), partial(name, data[, layout]) with extension in {.js,.html,.md,none} and data keys shadowing caller variables (g*) or fresh (f*), 0-3 contentFor names per document incl. redefinition, contentOf before/after the definition, with/without data (c*, shadowing s0), with default block, undefined name. contentType in {unset,text/html,application/javascript,text/javascript}. ORACLE (metamorphic): every composition is replaced by an oracle helper that renders the composed-in text itself with plush.Render in a child of the caller's scope extended with data and leaves a placeholder which is substituted textually, unescaped, exactly once; JSEscapeString is applied by the oracle once per partial (and layout) whose name has a non-.js non-empty extension under a JavaScript content type; layouts get the result as yield; an undefined contentOf without default must fail. For data-free cases additionally the TEXTUAL inline: the partial/layout/block source pasted in place of the tag must render the same. Whole outputs byte for byte, errors as error/no-error, plus the list of strings the block helper received. (E) config matrix ct x ext x layout mode x layout ext x 9 bodies x 4 data maps; (E) all sequences of 12 content operations up to length 3 (thorough 4) x 3 placements; (R) random trees. Not asserted (never generated): what a layout sees of the partial's data or contentFor names, contentFor inside blocks/loops, scope of a stored block other than names nobody rebinds, visibility of the data map in a contentOf default block. Non-trivial = at least one composition was executed and rendered non-empty text, or the case must fail. Distinct by case."
+const rule = "A case is a tree of documents: main template, partial bodies (nesting <= 3), layouts (a layout may wrap its yield in a partial that has a layout), contentFor blocks, contentOf default blocks, blocks of a recording Go block helper. Items: literal text (HTML/JS specials), <%= %> of context strings with HTML/JS specials, of loop variables, of data keys, a tick() counter (detects double evaluation), for loops, if/else, let (partials: must not leak), partial(name, data[, layout]) (in a quarter of the cases the data map, layout entry included, is held in a variable and used by TWO calls) with extension in {.js,.html,.md,none} and data keys shadowing caller variables (g*) or fresh (f*), 0-3 contentFor names per document incl. redefinition, contentOf before/after the definition, with/without data (c*, shadowing s0), with default block, undefined name. contentType in {unset,text/html,application/javascript,text/javascript}. ORACLE (metamorphic): every composition is replaced by an oracle helper that renders the composed-in text itself with plush.Render in a child of the caller's scope extended with data and leaves a placeholder which is substituted textually, unescaped, exactly once; JSEscapeString is applied by the oracle once per partial (and layout) whose name has a non-.js non-empty extension under a JavaScript content type; layouts get the result as yield; an undefined contentOf without default must fail. For data-free cases additionally the TEXTUAL inline: the partial/layout/block source pasted in place of the tag must render the same. Whole outputs byte for byte, errors as error/no-error, plus the list of strings the block helper received. (E) config matrix ct x ext x layout mode x layout ext x 9 bodies x 4 data maps; (E) all sequences of 12 content operations up to length 3 (thorough 4) x 3 placements; (R) random trees. Not asserted (never generated): what a layout sees of the partial's data or contentFor names, contentFor inside blocks/loops, scope of a stored block other than names nobody rebinds, visibility of the data map in a contentOf default block. Non-trivial = at least one composition was executed and rendered non-empty text, or the case must fail. Distinct by case."
 
 func setup(t *testing.T) *vk.Run {
 	r := vk.Start(t, "C17", rule,
@@ -1274,6 +1305,9 @@ func TestProp(t *testing.T) {
 		e := exts[i%int64(len(exts))]
 		i /= int64(len(exts))
 		r.Check(check(r, configCase(ctsE[i], e, l.mode, l.ext, bd, d)))
+		if (bd+d)%3 == 0 { // a third of the matrix again with the data map held in a variable and used by two calls
+			r.Check(check(r, configCaseHeld(ctsE[i], e, l.mode, l.ext, bd, d, true)))
+		}
 	})
 	// the same bodies without any data through the textual oracle (no JavaScript escaping)
 	var nt int64
